@@ -190,6 +190,14 @@ def run(rep):
     import C10
     for t in ("FftFixedIn", "FftFixedOut", "FftFixedInOut"):
         rep.guarded("R-C10-restore", lambda r, t=t: C10.rule_restore(r, t))
+    # asynchronous types: no drift needs the read position to advance by exactly the current step once per output frame (shared with C06)
+    import asyncmodel
+    import C06
+    from common import ASYNC
+    for t in ASYNC:
+        rep.guarded("R-C06-step", lambda r, t=t: C06.rule_step(r, t, asyncmodel.extract(r.ctx.facts, t)))
+    rep.floor("R-C06-step", 4 * 3 + 18)
+    rep.clause("R-C06-step", "in all 18 arms the position advances by the current step exactly once per frame, nothing else modifies it (shared with C06)")
     rep.floor("R-C07-carry", 1 + 8 + 2)
     rep.floor("R-C07-gcd", 3 * 3 + 2)
     rep.floor("R-C07-conserve", 9 + 7)
